@@ -1,3 +1,4 @@
+import Gtree.Lemmas.SourceRefines
 import Gtree.Lemmas.Names
 import Gtree.Lemmas.Build
 import Gtree.Lemmas.ParseDoc
@@ -382,4 +383,25 @@ example : isBlank ([sp, tab] ++ [hy, sp, 0x7A]) = false := by decide
 
 /-- non-vacuity of `C02_no_silent_loss`: the rows "- a", "  - b" carry the item texts a, b -/
 example : textsOf {} [[0x2D, 0x20, 0x61], [0x20, 0x20, 0x2D, 0x20, 0x62]] = [[0x61], [0x62]] := by decide
+end Gtree
+
+namespace Gtree
+/-- Tie to the source, re-checked on every run: the parser whose accept/reject decisions the C02 theorems are about is `Parser.Parse` of markdown/parser.go as translated on this run (with the side effects of the failed attempts inside `separateRow`). -/
+theorem C02_parser_is_the_source (st : PState) (row : Bytes) :
+    Src.Parser.Parse (toSrc st) row = (toSrc (parse st row).1, resSrc (parse st row).2) :=
+  Parse_src st row
+
+/-- the parser every generator starts with (`md.NewParser()` returns `&Parser{}`) is the model's initial state -/
+example : toSrc {} = { isSharpRoot := false, spaces := 0, sep := [] } := rfl
+end Gtree
+
+namespace Gtree
+/-- Tie to the source: `nodeGenerator.handleErr` (node_generator.go, translated on this run) maps the parser's errors
+    the way the model's `genStep` does — an empty item text is the generator's own sentinel, a format error
+    carries the offending row, a blank row is not an error. -/
+theorem C02_error_mapping_is_the_source (g : Src.nodeGenerator) (row : Bytes) :
+    Src.nodeGenerator.handleErr g (some (errSrc .emptyText)) row = gerrSrc .emptyText ∧
+    Src.nodeGenerator.handleErr g (some (errSrc .incorrect)) row = gerrSrc (.format row) ∧
+    Src.nodeGenerator.handleErr g (some (errSrc .blank)) row = none :=
+  handleErr_src g row
 end Gtree
